@@ -834,3 +834,258 @@ func namedPkgPath(t types.Type) string {
 	}
 	return ""
 }
+
+// C05 rules name-literal-quoted and param-names-printed (added after two defects were found on the unchanged tree by
+// differential probing: names were printed with `"%s"` / Go's `%q`, so a name with a quote, a backslash or a control
+// byte did not survive print -> parse; the parameter names of imported functions and of type definitions were not
+// printed, and the assembler puts them into the name section).
+//
+//   name-literal-quoted — no printer format writes a string between literal double quotes (`"%s"`) or with `%q`:
+//       every string literal of the printed text comes from the package's quoting function (the one whose body writes
+//       the `\hh` escapes), or from the data-segment printer, which escapes every byte.
+//   param-names-printed — every loop of the printer over the parameters of a function type that prints `(param`
+//       prints the parameter's name when it has one.
+func c05NamesQuoted(c *Ctx, p *Prog, pp *packages.Package) {
+	const r1, r2 = "name-literal-quoted", "param-names-printed"
+	info := pp.TypesInfo
+	// the quoting function: returns string, formats `\%02x`
+	var quoteFn *types.Func
+	for _, name := range sortedDeclNames(pp) {
+		fd := AllFuncDecls(pp)[name]
+		if fd.Body == nil || fd.Type.Results == nil || len(fd.Type.Results.List) != 1 {
+			continue
+		}
+		hasEsc := false
+		ast.Inspect(fd.Body, func(n ast.Node) bool {
+			if bl, ok := n.(*ast.BasicLit); ok {
+				if tv, ok := info.Types[bl]; ok && tv.Value != nil && tv.Value.Kind() == constant.String && strings.Contains(constant.StringVal(tv.Value), `\%02x`) {
+					hasEsc = true
+				}
+			}
+			return true
+		})
+		if hasEsc {
+			quoteFn, _ = info.Defs[fd.Name].(*types.Func)
+		}
+	}
+	nQuoted, nRaw, nParams := 0, 0, 0
+	seq := map[string]int{}
+	for _, name := range sortedDeclNames(pp) {
+		fd := AllFuncDecls(pp)[name]
+		if fd.Body == nil {
+			continue
+		}
+		ast.Inspect(fd.Body, func(n ast.Node) bool {
+			switch x := n.(type) {
+			case *ast.CallExpr:
+				fn := CalleeOf(info, x)
+				if fn != nil && fn == quoteFn {
+					nQuoted++
+					return true
+				}
+				if fn == nil || fn.Pkg() == nil || fn.Pkg().Path() != "fmt" || fn.Name() != "Fprintf" || len(x.Args) < 2 {
+					return true
+				}
+				tv, ok := info.Types[x.Args[1]]
+				if !ok || tv.Value == nil || tv.Value.Kind() != constant.String {
+					return true
+				}
+				f := constant.StringVal(tv.Value)
+				if strings.Contains(f, `"%s"`) || strings.Contains(f, `"%v"`) || strings.Contains(f, "%q") {
+					nRaw++
+					key := name + ": " + strings.TrimSpace(f)
+					seq[key]++
+					if seq[key] > 1 {
+						key = fmt.Sprintf("%s #%d", key, seq[key])
+					}
+					c.Fail(r1, key, p.Pos(x.Pos()), "the format `"+strings.TrimSpace(f)+"` writes a string between quotes without escaping it (or with Go's %q, whose \\x.. and \\u.. forms are not WAT escapes): a name that contains a quote, a backslash or a control byte is printed as text that does not parse back to the same name")
+				}
+			case *ast.RangeStmt:
+				if !strings.HasSuffix(types.ExprString(x.X), ".Params") {
+					return true
+				}
+				prints := false
+				for _, call := range callsIn(info, x.Body.List) {
+					if len(call.Args) >= 2 {
+						if tv, ok := info.Types[call.Args[1]]; ok && tv.Value != nil && tv.Value.Kind() == constant.String && strings.Contains(constant.StringVal(tv.Value), "(param") {
+							prints = true
+						}
+					}
+				}
+				if !prints {
+					return true
+				}
+				nParams++
+				v, _ := x.Value.(*ast.Ident)
+				named := false
+				if v != nil {
+					ast.Inspect(x.Body, func(m ast.Node) bool {
+						if se, ok := m.(*ast.SelectorExpr); ok && se.Sel.Name == "Name" {
+							if id, ok := se.X.(*ast.Ident); ok && info.ObjectOf(id) == info.ObjectOf(v) {
+								named = true
+							}
+						}
+						return true
+					})
+				}
+				c.Check(named, r2, name+": loop over "+types.ExprString(x.X), p.Pos(x.Pos()), "prints the parameter's name when it has one",
+					"this loop prints `(param <type>)` for every parameter and never looks at the parameter's name: the assembler writes parameter names into the name section, so the printed module assembles to a different binary than the module that was printed")
+			}
+			return true
+		})
+	}
+	c.Min(r1, "strings printed through the quoting function", nQuoted, 6)
+	c.Count("formats that quote a string themselves", nRaw)
+	c.Min(r2, "parameter-printing loops", nParams, 3)
+}
+
+// C05 rule list-print-guard (added after the one-token mutation campaign: `if len(fn.Locals) != 0 || len(fn.Body.List)
+// != 0 { …print body… }` with `||` turned into `&&`, or `!= 0` into `!= 1`, passed the repository's tests and every
+// rule, although a function with a body and no locals then loses its body in the printed text).
+//
+// An if whose condition is built from emptiness tests of lists (`len(X) != 0`, `len(X) > 0`, `len(X) == 0` with !, &&,
+// ||) and whose body — directly or through one function of the package — iterates those lists, must let every list
+// be printed when it is not empty: for each list L the condition is true in the world where L alone is non-empty.
+func c05ListPrintGuard(c *Ctx, p *Prog, pp *packages.Package) {
+	c.Min("list-print-guard", "emptiness guards around list printing", listGuardRule(c, p, pp, ""), 10)
+}
+
+// listGuardRule is the rule for one package; prefix tells packages apart in obligation keys.
+func listGuardRule(c *Ctx, p *Prog, pp *packages.Package, prefix string) int {
+	const rule = "list-print-guard"
+	info := pp.TypesInfo
+	decls := map[*types.Func]*ast.FuncDecl{}
+	for _, fd := range AllFuncDecls(pp) {
+		if fn, ok := info.Defs[fd.Name].(*types.Func); ok {
+			decls[fn] = fd
+		}
+	}
+	n := 0
+	seqG := map[string]int{}
+	for _, name := range sortedDeclNames(pp) {
+		fd := AllFuncDecls(pp)[name]
+		if fd.Body == nil {
+			continue
+		}
+		ast.Inspect(fd.Body, func(nd ast.Node) bool {
+			ifs, ok := nd.(*ast.IfStmt)
+			if !ok {
+				return true
+			}
+			// atoms of the condition: list expression -> present
+			lists := map[string]bool{}
+			pure := true
+			var scan func(e ast.Expr)
+			scan = func(e ast.Expr) {
+				switch x := ast.Unparen(e).(type) {
+				case *ast.UnaryExpr:
+					if x.Op == token.NOT {
+						scan(x.X)
+						return
+					}
+					pure = false
+				case *ast.BinaryExpr:
+					if x.Op == token.LAND || x.Op == token.LOR {
+						scan(x.X)
+						scan(x.Y)
+						return
+					}
+					if call, ok := ast.Unparen(x.X).(*ast.CallExpr); ok && types.ExprString(call.Fun) == "len" && len(call.Args) == 1 {
+						if _, isConst := constIntOf(info, x.Y); isConst {
+							lists[types.ExprString(call.Args[0])] = true
+							return
+						}
+					}
+					pure = false
+				default:
+					pure = false
+				}
+			}
+			scan(ifs.Cond)
+			if !pure || len(lists) < 1 {
+				return true
+			}
+			// lists iterated by the body (one call level into the package; receivers/arguments are matched by text)
+			iterated := map[string]bool{}
+			var collect func(n ast.Node, depth int)
+			collect = func(n ast.Node, depth int) {
+				ast.Inspect(n, func(m ast.Node) bool {
+					switch x := m.(type) {
+					case *ast.RangeStmt:
+						iterated[types.ExprString(x.X)] = true
+					case *ast.CallExpr:
+						if fn := CalleeOf(info, x); fn != nil && depth < 1 {
+							if hd := decls[fn]; hd != nil && hd.Body != nil {
+								collect(hd.Body, depth+1)
+							}
+						}
+					}
+					return true
+				})
+			}
+			collect(ifs.Body, 0)
+			var printed []string
+			for l := range lists {
+				if iterated[l] {
+					printed = append(printed, l)
+				}
+			}
+			sort.Strings(printed)
+			if len(printed) == 0 {
+				return true
+			}
+			n++
+			// evaluate the condition in the world where exactly one list is non-empty (length 1)
+			var eval func(e ast.Expr, nonEmpty string) bool
+			eval = func(e ast.Expr, nonEmpty string) bool {
+				switch x := ast.Unparen(e).(type) {
+				case *ast.UnaryExpr:
+					return !eval(x.X, nonEmpty)
+				case *ast.BinaryExpr:
+					switch x.Op {
+					case token.LAND:
+						return eval(x.X, nonEmpty) && eval(x.Y, nonEmpty)
+					case token.LOR:
+						return eval(x.X, nonEmpty) || eval(x.Y, nonEmpty)
+					}
+					call := ast.Unparen(x.X).(*ast.CallExpr)
+					k, _ := constIntOf(info, x.Y)
+					var ln int64
+					if types.ExprString(call.Args[0]) == nonEmpty {
+						ln = 1
+					}
+					switch x.Op {
+					case token.NEQ:
+						return ln != k
+					case token.EQL:
+						return ln == k
+					case token.GTR:
+						return ln > k
+					case token.GEQ:
+						return ln >= k
+					case token.LSS:
+						return ln < k
+					case token.LEQ:
+						return ln <= k
+					}
+				}
+				return false
+			}
+			var bad []string
+			for _, l := range printed {
+				if !eval(ifs.Cond, l) {
+					bad = append(bad, l)
+				}
+			}
+			key := prefix + name + ": if " + types.ExprString(ifs.Cond)
+			seqG[key]++
+			if seqG[key] > 1 {
+				key = fmt.Sprintf("%s #%d", key, seqG[key])
+			}
+			c.Check(len(bad) == 0, rule, key, p.Pos(ifs.Pos()), "every list the body prints is printed when it is not empty",
+				"under `"+types.ExprString(ifs.Cond)+"` the body prints "+strings.Join(printed, ", ")+", but the condition is false when only "+strings.Join(bad, " / ")+" has an element: that part of the module is missing from the printed text (a function with instructions and no locals loses its body)")
+			return true
+		})
+	}
+	return n
+}
